@@ -26,8 +26,9 @@ VARIABLES h, st, res, nest
 vars == <<h, st, res, nest>>
 
 \* option sets (a TLC cfg file cannot contain records): 0 = option not passed
-Opts_quick    == {Opt(0, 0), Opt(32, 32), Opt(16, 0)}         \* (32, 32): the upper end of both documented ranges
-Opts_thorough == Opts_quick \cup {Opt(0, 16), Opt(16, 16), Opt(32, 31), Opt(8, 32), Opt(1, 1)}
+Opts_quick    == {Opt(0, 0), Opt(32, 32)}                     \* (32, 32): the upper end of both documented ranges
+Opts_q3       == Opts_quick \cup {Opt(16, 0)}                 \* scale_bit only: merged with the declared shift_pos
+Opts_thorough == Opts_q3 \cup {Opt(0, 16), Opt(16, 16), Opt(32, 31), Opt(8, 32), Opt(1, 1)}
 Opts_min      == {Opt(0, 0)}
 
 Ev(a, k, bk, o) == [a |-> a, k |-> k, backend |-> bk, sb |-> o.sb, sp |-> o.sp]
